@@ -62,7 +62,7 @@ pub fn install_panic_hook() {
     }));
 }
 
-const STACK: usize = 256 << 20;
+const STACK: usize = 32 << 20;
 
 /// Run `f` as one analyzer incarnation: fresh thread, seeded entropy stream, panics caught.
 pub fn incarnation<T: Send + 'static>(entropy_seed: u64, f: impl FnOnce() -> T + Send + 'static) -> IncOutcome<T> {
